@@ -32,7 +32,7 @@ void h_rt_info(void) {
   oggpack_writeinit(&wr);
   int r = _vorbis_pack_info(&wr, &vi);
   __CPROVER_assert(r == 0, "ID header is produced");
-  __CPROVER_assert(oggpack_bytes(&wr) == 30 && wr.endbit == 0, "ID header is exactly 30 bytes");
+  __CPROVER_assert(oggpack_bytes(&wr) == 30 && oggpack_bits(&wr) == 233, "ID header is exactly 233 bits (30 bytes)");
   oggpack_readinit(&rd, wr.buffer, oggpack_bytes(&wr));
   __CPROVER_assert(preamble_ok(&rd, 1), "packet type 1 and the codec magic");
   int r2 = _vorbis_unpack_info(&vi2, &rd);
